@@ -389,6 +389,31 @@ impl Harness {
         }
         match op {
             Op::Send { c, stream, topic, part, msgs } => self.op_send(*c, stream, topic, part, msgs).await,
+            Op::SendThenPurge { stream, topic, partition, msgs } => {
+                if self.session_ready(0) && self.model.topic_ids(stream, topic).is_some() {
+                    let mut messages: Vec<Message> = msgs.iter().map(|m| m.to_message()).collect();
+                    let client = self.client(0).unwrap();
+                    let sent = client.send_messages(&stream.to_identifier(), &topic.to_identifier(), &Partitioning::partition_id(*partition), &mut messages).await;
+                    // no settle: the purge meets whatever the send left in flight
+                    let purged = client.purge_topic(&stream.to_identifier(), &topic.to_identifier()).await;
+                    self.sim.settle().await;
+                    let (sid, tid) = self.model.topic_ids(stream, topic).unwrap();
+                    if purged.is_ok() {
+                        for p in self.model.streams.get_mut(&sid).unwrap().topics.get_mut(&tid).unwrap().partitions.values_mut() {
+                            crate::harness_cat::purge_partition_model(p);
+                            // the deduplicator may remember the ids of the purged send
+                            p.purged_ids.extend(msgs.iter().map(|m| m.id).filter(|i| *i != 0));
+                        }
+                        self.stats.probe("send_then_purge_done");
+                    } else {
+                        // the send (if accepted) is not in the model: its partition is uncertain from here on
+                        if sent.is_ok() {
+                            self.mark_tainted(sid, tid);
+                        }
+                        self.violate("C06", "valid_command_fails", "purge_topic_after_send", format!("purge of {sid}/{tid} right after a send failed: {:?}", purged.err()));
+                    }
+                }
+            }
             Op::Poll { c, stream, topic, partition, who, kind, count, auto_commit } => {
                 self.op_poll(*c, stream, topic, *partition, who, kind, *count, *auto_commit).await
             }
